@@ -41,6 +41,7 @@ def leafOfTree : Json → Option (Leaf H)
           fieldOr fs (key! "elementHash") zero decH, fieldOr fs (key! "spent") false toBool with
     | some i, some p, some e, some s => some ⟨e, s, i, p⟩
     | _, _, _, _ => none
+  | .null => some ⟨zero, false, 0, []⟩
   | _ => none
 
 /-- the heights 0..63 in the order encoding/json writes them as map keys
@@ -91,6 +92,7 @@ def applyOfTree : Json → Option (ApplyUpdate H)
           fieldOr fs (key! "oldNumLeaves") 0 (toNatBits 64), fieldOr fs (key! "numLeaves") 0 (toNatBits 64) with
     | some upd, some g, some o, some n => some ⟨upd, g, o, n⟩
     | _, _, _, _ => none
+  | .null => some ⟨fun _ => [], fun _ => [], 0, 0⟩
   | _ => none
 
 /-- `RevertUpdate.MarshalJSON` -/
@@ -109,6 +111,7 @@ def revertOfTree : Json → Option (RevertUpdate H)
           fieldOr fs (key! "numLeaves") 0 (toNatBits 64) with
     | some upd, some n => some ⟨upd, n⟩
     | _, _ => none
+  | .null => some ⟨fun _ => [], 0⟩
   | _ => none
 
 end
